@@ -286,11 +286,13 @@ void HttpMessage::readBody()
 
 	bool end = false;
 
-	if (hasHeader("Content-Length")) {
+	if (chunked) // Transfer-Encoding overrides Content-Length (RFC 7230 3.3.3): the chunks alone frame the body
+		size = 0;
+	else if (hasHeader("Content-Length")) {
 		if (header("Content-Length") == "0")
 			return;
 	}
-	else if(!chunked)
+	else
 		return;
 
 	_status->totalReceive = size;
